@@ -163,8 +163,9 @@ Proof.
     apply negb_true_iff in N. apply negb_true_iff in N92.
     apply lex1_word; [destruct Hi; assumption | apply nohead_of_hdz; exact N | apply nohead_of_hdz; exact N92].
   - destruct N as [N|[X _]]; [|discriminate]. simpl in N. apply andb_true_iff in N as [N1 N2].
-    apply negb_true_iff in N1. apply negb_true_iff in N2.
-    apply lex1_num; [exact Hi | apply nohead_of_hdz; exact N1 | apply nohead_of_hdz; exact N2].
+    apply negb_true_iff in N1.
+    apply lex1_num; [exact Hi | apply nohead_of_hdz; exact N1 |].
+    intro Hpl. apply nohead_of_hdz. change (plain_int (text (INum s))) with (no_dex s) in Hpl. rewrite Hpl in N2. simpl in N2. apply negb_true_iff in N2. exact N2.
   - destruct N as [N|[X _]]; [|discriminate]. simpl in N. apply andb_true_iff in N as [N _]. apply negb_true_iff in N.
     change (text (IRe b f) ++ R) with (47 :: (b ++ 47 :: f) ++ R). rewrite <- app_assoc. change ((47 :: f) ++ R) with (47 :: f ++ R).
     apply lex1_re; [eapply goal_regex; exact Hc | exact Hi | apply nohead_of_hdz; exact N].
